@@ -814,6 +814,7 @@ static void drive(const vh::Lines &ls, const char *who) {
 #include "tp_part.hpp"
 #include "mix_part.hpp"
 #include "err_part.hpp"
+#include "init_part.hpp"
 
 static void body(const vh::Lines &ls) {
 	ev_reset_all();
@@ -835,6 +836,7 @@ static void body(const vh::Lines &ls) {
 	else if(ty == "tp") tp_case(ls);
 	else if(ty == "mix") mix_case(ls);
 	else if(ty == "err") err_case(ls);
+	else if(ty == "init") init_case(ls);
 	else printf("badtype\n");
 }
 
